@@ -239,6 +239,10 @@ pub enum RtcpWriteError {
     /// Number of FIR's will not fit within a single RTCP packet.
     #[error("The number of FIR entries will not fit inside a RTCP packet.")]
     TooManyFir,
+
+    /// The packet size does not fit in the 16-bit length field of the RTCP header.
+    #[error("Packet size {size} is too large (max {max})")]
+    PacketTooLarge { size: usize, max: usize },
 }
 
 impl From<RtcpParseError> for RtcpWriteError {
